@@ -236,7 +236,7 @@ for op, (cols, rows, row, top, bottom) in {
         "Su": (3, 4, 0, 1, 2), "Sd": (3, 4, 3, 1, 2), "Il": (3, 4, 2, 1, 2), "Dl": (3, 4, 1, 1, 2),
         "Lf": (3, 3, 2, 0, 2), "Nel": (3, 3, 1, 0, 1), "Ri": (3, 3, 1, 1, 2)}.items():
     scroll(op, cols, rows, row, top, bottom, {"C06": Q, "C15": Q if op in ("Il", "Su") else T, "C02": Q if op in ("Dl", "Lf") else T,
-                                               "C14": Q if op in ("Lf", "Dl") else T, "C17": T, "C16": T, "C01": T})
+                                               "C14": Q if op in ("Lf", "Dl", "Nel") else T, "C17": T, "C16": T, "C01": T})   # Nel: fixed-count scroll of a region anchored at the top (seed C14-e)
 scroll("Su", 3, 3, 1, 0, 1, {"C06": Q, "C14": Q, "C13": Q, "C15": T, "C01": T})          # partial region anchored at the top: insert path
 scroll("Su", 3, 3, 1, 0, 1, {"C14": Q, "C13": Q, "C06": T}, sb=0, alt=0, limit="Some(0)", suffix="_l0")   # same with scrollback limit 0
 scroll("Lf", 3, 3, 1, 0, 1, {"C14": T, "C13": T, "C06": T}, sb=0, alt=0, limit="Some(0)", suffix="_l0")
@@ -285,7 +285,8 @@ def erase(op, cols, rows, props, sb=1, alt=2, mem=10, suffix=""):
 
 
 for op in ("Ed0", "Ed1", "Ed2", "El0", "El1", "El2", "Ech"):
-    erase(op, 3, 3, {"C07": Q, "C15": Q if op in ("Ed1", "Ech") else T, "C02": Q if op == "Ed0" else T, "C08": Q if op == "El0" else T,
+    # C15: every scope has its own flagging code in Terminal::ed / el, so all of them are in the quick tier (seed C15-e: ED 2)
+    erase(op, 3, 3, {"C07": Q, "C15": Q, "C02": Q if op == "Ed0" else T, "C08": Q if op == "El0" else T,
                      "C14": Q if op == "Ed2" else T, "C16": T, "C17": T, "C01": T})
     erase(op, 1, 1, {"C07": T, "C01": Q if op in ("Ed1", "Ech", "El1") else T}, sb=0, suffix="")
     erase(op, 4, 2, {"C07": T, "C15": T}, sb=0, alt=0)
@@ -402,8 +403,8 @@ def ris(cols, rows, alt, props, parked_rows=None, tabs_k="SYM", sb=1, limit="Som
          bounds=geo_desc(cols, rows, **kw) + "; parked screen %d rows" % pr)
 
 
-ris(3, 3, 0, {"C19": Q, "C15": T, "C02": T, "C01": T}, tabs_k="1")
-ris(3, 3, 1, {"C19": Q, "C16": T, "C01": T}, parked_rows=2, suffix="_parked2")
+ris(3, 3, 0, {"C19": Q, "C17": T, "C15": T, "C02": T, "C01": T}, tabs_k="1")
+ris(3, 3, 1, {"C19": Q, "C17": Q, "C16": T, "C01": T}, parked_rows=2, suffix="_parked2")  # C17 after seed C17-e: RIS = power-on saved contexts
 ris(9, 2, 1, {"C19": T}, tabs_k="2", suffix="_tabs")
 ris(1, 1, 0, {"C19": T, "C01": Q}, sb=0)
 # (RIS with an unlimited scrollback is outside: Buffer::new reserves 1000 lines, which CBMC does not survive)
@@ -574,8 +575,8 @@ inst("vt_glue__2x2", "vt", "t_vt_glue(2, 2)", 36, {"C12": Q, "C20": T, "C01": T}
 BIG_OPS = ["Bs", "Cr", "Cuu", "Cud", "Cuf", "Cub", "Cnl", "Cpl", "Cha", "Cup", "Vpa", "Vpr", "Decstbm", "OriginSet", "OriginReset"]
 for op in BIG_OPS:
     inst("ncbig_%s" % op.lower(), "terminal", "t_nocell(%s, NoCellOp::%s)" % (tcfg(1, 1, sb=0, alt=2, limit="Some(1)", big="true"), op), 16,
-         {"C05": Q if op in ("Cuu", "Cud", "Cub", "Cup", "Decstbm") else T, "C01": Q if op in ("Cup", "Cuf") else T, "C06": T if op == "Decstbm" else None} if False else
-         {k: v for k, v in {"C05": (Q if op in ("Cuu", "Cud", "Cub", "Cup", "Decstbm") else T), "C01": (Q if op in ("Cup", "Cuf") else T), "C06": (T if op == "Decstbm" else None)}.items() if v},
+         # all of them in the quick tiers of C01 / C05 (15 s each): degenerate widths such as cols == 1 are only here (seed C01-e)
+         {k: v for k, v in {"C05": Q, "C01": Q, "C06": (T if op == "Decstbm" else None)}.items() if v},
          mem=6,
          desc="execute(%s) on the scalar slice of the state: size fields, cursor, margins, saved position symbolic for EVERY screen size up to 2^31 x 2^31 "
               "(buffers 1x1; the operation reads no buffer): same closed forms, no overflow in the usize/isize arithmetic" % op,
